@@ -22,7 +22,9 @@ use tokio::time::timeout as tokio_timeout;
 
 use super::parse_bool_option;
 
-const MAX_DEALER_SEND_BUFFER_PARTS: usize = 10240;
+// Frames buffered by send() with MORE before the final frame arrives: together with that final frame they
+// must stay within what one message may carry.
+const MAX_DEALER_SEND_BUFFER_PARTS: usize = crate::message::MAX_USER_FRAMES_PER_MESSAGE - 1;
 
 #[derive(Debug)]
 enum DealerSendTransaction {
